@@ -91,6 +91,16 @@ def run(ck):
             if o not in ('usage', 'diag', 'report', 'timeout'):
                 viol.append(dict(kind='table+output' if c != 'bigint' else 'bigint', argv=[a if len(a) < 60 else a[:30] + '…(%d characters)' % len(a) for a in argv],
                                  argv_full=argv, observed='%s %s' % (o, det), field=f['name'], cls=c))
+    # 1a''. words instead of numbers, deleted fields: every comma field of every option of the table's command lines
+    nw = 0
+    for what, argv in c20table.word_sweep():
+        o, det = fuzzcmd.outcome(argv, limit=60)
+        nw += 1
+        ck.case(('word', tuple(argv)), True)
+        ck.count('word_' + o)
+        if o not in ('usage', 'diag', 'report', 'timeout'):
+            viol.append(dict(kind='word', argv=argv, observed='%s: %s %s' % (what, o, det)))
+    ck.stats['word_cells'] = nw
     # 1b. output-file stage, exhaustively: option x path class (and the load combination BASIC cannot express)
     import os
     base = ['-f', '7', '-w', '6,0,0,0,0,0,10,.01', '--excitation-pulse=2']
